@@ -27,7 +27,7 @@ Every disagreement is re-run (and shrunk) before it is reported.
 """
 import json, os, re
 import vlib
-from checks import pipecommon, c12_bininput
+from checks import pipecommon, c12_bininput, c12_ubufreq
 
 LEVEL = "model_checking"
 
@@ -902,6 +902,8 @@ def replay(ctx, rp):
     jvm_env()
     if rp["replay"].get("stage") == "bininput":
         return c12_bininput.replay(ctx, rp["replay"])
+    if rp["replay"].get("stage") == "ubufreq":
+        return c12_ubufreq.replay(ctx, rp["replay"])
     binp = build(ctx)
     c, cmds = rp["replay"]["cfg"], rp["replay"]["cmds"]
     s = close_script(c, cmds) or Script(c, cmds, ["xreset"])
@@ -1068,3 +1070,6 @@ def run(ctx):
     # 7. a bin whose first inner pipe is replaced / dropped while requests are registered on it
     c12_bininput.run_part(ctx)
     lap("bin_first_inner")
+    # 8. the requester's end of a buffer manager request: the same request answered several times
+    c12_ubufreq.run_part(ctx)
+    lap("ubuf_mgr_requester")
